@@ -124,15 +124,8 @@ def script_of(events, base_guards=0):
                 ctxs.append('for(%s)' % g[3])
             elif g[2] == 'loop':
                 ctxs.append('loop')
-            elif g[2] == 'if':
-                m = re.match(r'^let (.+?) = (.+)$', g[3])
-                if m:
-                    # `if let PAT = X {..}` and `match X { PAT => .. }` are the same test
-                    ctxs.append('case(%s ~ %s%s)' % (m.group(2), '' if g[1] == 'then' else 'not ', m.group(1)))
-                else:
-                    ctxs.append('%s(%s)' % ('if' if g[1] == 'then' else 'unless', g[3]))
-            elif g[2] == 'match':
-                ctxs.append('case(%s)' % g[3])
+            elif g[2] in ('if', 'match', 'armguard'):
+                ctxs.extend(S.guard_strs(g))
             elif g[2] == 'closure':
                 ctxs.append('closure')
         pre = ' > '.join(ctxs)
